@@ -32,13 +32,17 @@ def uncps(a):
 
 
 CLASSES = ("multi", "type", "semi")
+# a caller-supplied normaliser (str.upper) through MultiHierarchy and through TypeHierarchy
+UPPER_CLASSES = ("multi_upper", "type_upper")
 
 
 def norm_name(cls):
-    return "id" if cls == "multi" else "lower"
+    return "id" if cls == "multi" else "upper" if cls in UPPER_CLASSES else "lower"
 
 
 def nf_of(cls):
+    if cls in UPPER_CLASSES:
+        return lambda s: s.upper()
     return (lambda s: s) if cls == "multi" else (lambda s: s.lower())
 
 
@@ -97,7 +101,7 @@ def mk_case(cls, top, init, steps, tags=(), extra_u=()):
                 U.append(v)
     for n in list(U):
         if cls != "multi":
-            vs = [n.upper(), n.capitalize(), n.swapcase()]
+            vs = [n.upper(), n.capitalize(), n.swapcase(), n.lower()]
         else:
             vs = [n.swapcase()]       # a different node for the identity normaliser
         for v in vs:
@@ -278,17 +282,35 @@ POOLS = {
     "multi": ["a", "b", "c", "d", "e", "f", "g", "A", "a b", "", "é", "*x*"],
     "type": ["a", "b", "c", "d", "e", "f", "g", "Ab", "aB", "*x*"],
     "semi": ["a", "b", "c", "d", "e", "f", "g", "X", "u", "i-p"],
+    "multi_upper": ["a", "b", "c", "d", "e", "f", "g", "Ab", "aB", "*x*"],
+    "type_upper": ["a", "B", "c", "D", "e", "f", "g", "Ab", "aB", "i-p"],
 }
 
 
 def gen_history(rng, cls=None):
-    cls = cls or rng.choice(CLASSES)
+    cls = cls or rng.choice(CLASSES + CLASSES + UPPER_CLASSES)
     nf = nf_of(cls)
     top = "*top*" if cls == "semi" else rng.choice(["top", "top", "*top*", "Top", "T"])
     nv = Naive(top, nf)
     pool = rng.sample(POOLS[cls], rng.choice([5, 6, 7]))
     tags = []
     init = None
+    via = None
+    if cls == "semi" and rng.random() < 0.4:
+        # the hierarchy is one of those semi.SemI builds from its arguments
+        sub, _, t = gen_batch(rng, cls, nv, pool, rng.choice(FAULTS) if rng.random() < 0.2 else None)
+        entries = []
+        for n, p in sub:
+            if "s" in p:
+                entries.append([n, "str", [uncps(p["s"])], rng.randrange(3)])
+            else:
+                names = spec_names(p)
+                form = rng.choice(["list", "tuple"]) if names else rng.choice(["absent", "none", "list", "tuple"])
+                entries.append([n, form, names, rng.randrange(3)])
+        via = (rng.choice(VIA_KINDS), entries)
+        eff = via_effective(*via)
+        nv.try_update([[uncps(i), p] for i, p in eff["sub"]], None)
+        tags += t
     if cls != "semi" and rng.random() < 0.5:
         sub, data, t = gen_batch(rng, cls, nv, pool, rng.choice(FAULTS) if rng.random() < 0.15 else None)
         init = upd(sub, data)
@@ -313,6 +335,8 @@ def gen_history(rng, cls=None):
             steps.append(upd(sub, data))
             tags += t
             nv.try_update(sub, data)
+    if via is not None:
+        return via_case(via[0], via[1], steps, tags)
     return mk_case(cls, top, init, steps, tags)
 
 
@@ -373,6 +397,176 @@ def placement_cases():
         # the constructor with an invalid batch
         yield mk_case(cls, top, None if cls == "semi" else upd(fix([["a", S("top")], ["z", S("nope")]])), [],
                       ["placement", "ctor"])
+
+
+def data_cases():
+    """the DATA side, deterministically: `update` calls that carry data only (subhierarchy None or {}) or data
+    together with a subhierarchy, the data mapping naming known nodes (with and without stored data, the top,
+    nodes added by the same call) and ONE unknown identifier at every position (first / middle / last), in
+    normal-form and other spellings; every rejected call is followed by the full query set (data of every
+    node included), then by the same call without the unknown entry (accepted: stores exactly the given
+    data), a second rejected data batch over the now stored data, and __setitem__ on unknown and on
+    differently spelled identifiers.  Also: a batch rejected for a HIERARCHY reason whose data is all valid,
+    two spellings of one data key, and the constructor's data argument."""
+    for cls in CLASSES + ("type_upper",):
+        nrm = cls != "multi"
+        top = "*top*" if cls == "semi" else "top"
+        # spellings of known nodes that are not their normal form (for the identity normaliser a different
+        # spelling IS an unknown identifier, so there the same positions carry unknown names)
+        A, B, C, TOPS = ("A", "B", "C", top.upper()) if nrm else ("a", "b", "c", top)
+        unknowns = ["nope"] + (["Nope"] if nrm else ["A", top.upper()])
+        base = [["a", S(top)], ["b", S("a")], ["c", S(top)]]
+        pre = [upd(base, [["a", 10]])]                      # a has data, b and c have none
+        newsub = [["x", S("a")], ["y", T("x", "c")]]
+        X, Y = ("X", "Y") if nrm else ("x", "y")
+        forms = {
+            "none": (None, [[["a", 1]], [[A, 1], ["b", 2]], [["b", 1], [TOPS, 2], [C, 3]]]),
+            "empty": ([], [[[A, 1]], [["a", 1], [B, 2]], [["c", 1], [top, 2], ["a", 3]]]),
+            "new": (newsub, [[["x", 1]], [[A, 1], [Y, 2]], [[X, 1], ["b", 2], ["y", 3]], [[TOPS, 4], ["x", 5]]]),
+        }
+        for fname, (sub, Ks) in forms.items():
+            for ki, K in enumerate(Ks):
+                for pos in range(len(K) + 1):
+                    unk = unknowns[(ki + pos) % len(unknowns)]
+                    where = "first" if pos == 0 else ("last" if pos == len(K) else "middle")
+                    bad = K[:pos] + [[unk, 99]] + K[pos:]
+                    bad2 = [[k, v + 100] for k, v in K[:pos]] + [[unk, 98]] + [[k, v + 100] for k, v in K[pos:]]
+                    steps = pre + [
+                        upd(sub, bad),                       # rejected: nothing may be stored, no node added
+                        upd(sub, K),                         # accepted: exactly K is stored
+                        upd(None if fname != "empty" else [], bad2),   # rejected again, now over stored data
+                        setitem(unk, 5),                     # rejected
+                        setitem(A, 6),                       # accepted, non-normal spelling
+                        upd(None, [["zz9", 1]]),             # rejected: a lone unknown entry
+                        setitem(B.swapcase() if not nrm else "zz9", 7),   # rejected
+                    ]
+                    yield mk_case(cls, top, None, steps,
+                                  ["data", "data:sub_" + fname, "data:unknown_" + where, "data:n%d" % len(bad)],
+                                  extra_u=["x", "y", "nope"])
+        # a batch rejected for a hierarchy reason although all of its data is valid: no data may be stored
+        hfaults = {
+            "unknown_parent": [["z", S("nope")]], "late_unknown": [["z", S("y nope")]],
+            "redundant_old": [["z", S("a b")]], "redundant_new": [["z", S("x a")]],
+            "cycle": [["z", S("w")], ["w", S("z")]], "self_parent": [["z", S("z")]],
+            "duplicate": [["a", S(top)]], "dup_top": [[top, S("a")]], "empty_str": [["z", S("")]],
+            "dup_spelled": [[A if nrm else "z", S("nope" if not nrm else top)]],
+        }
+        for hname, hent in hfaults.items():
+            for pos in range(len(newsub) + 1):
+                batch = newsub[:pos] + hent + newsub[pos:]
+                dat = [[A, 1], ["x", 2], [Y, 3], ["b", 4], [TOPS, 5]]
+                dat = dat[pos:] + dat[:pos]
+                steps = pre + [upd(batch, dat), upd(None, [["b", 8]]), upd(newsub, dat), upd(batch, [["a", 0]])]
+                yield mk_case(cls, top, None, steps, ["data", "data:hier_fault", "fault:" + hname])
+        # two data keys the normaliser identifies (last wins), given together with an unknown one or not
+        for dat in ([["a", 1], [A.swapcase() if nrm else "a", 2]], [[A, 1], ["a", 2], ["nope", 3]],
+                    [["nope", 3], ["b", 1], [B, 2]], [[B, 1], ["nope", 3], ["b", 2]]):
+            yield mk_case(cls, top, None, pre + [upd(None, dat), upd([], dat), upd(None, dat[:2][::-1])],
+                          ["data", "data:two_spellings"])
+        # the constructor: hierarchy=None ignores data (no update call); {} and a batch pass it on
+        if cls != "semi":
+            ctor = [upd(None, [["nope", 1]]), upd(None, [[top, 1]]), upd([], [[TOPS, 1]]), upd([], [["nope", 1]]),
+                    upd([], [[top, 1], ["nope", 2]]), upd(base, [["a", 1], ["nope", 2], ["b", 3]]),
+                    upd(base, [["nope", 2], [A, 1]]), upd(base, [[A, 1], [TOPS, 2], ["c", 3]]),
+                    upd(base, [[B, 1], ["nope", 2]])]
+            for init in ctor:
+                yield mk_case(cls, top, init, [upd(None, [["a", 4], ["nope", 5]]), setitem(A, 6), setitem("nope", 7)],
+                              ["data", "data:ctor"])
+        else:
+            for init in (upd([], [[TOPS, 1]]), upd([], [[top, 1], ["nope", 2]]), upd(base, [["a", 1], ["nope", 2]])):
+                yield mk_case(cls, top, init, [upd(None, [["a", 4], ["nope", 5]]), setitem(A, 6), setitem("nope", 7)],
+                              ["data", "data:ctor"])
+
+
+# --------------------------------------------------------------------------- hierarchies built by semi.SemI
+
+VIA_KINDS = ("variables", "properties", "predicates")
+VIA_PROPS = [["pers", "3"], ["Num", "SG"]]           # stored by SemI._init_variables as ('PERS','3'), ('NUM','sg')
+DATA_LIST_BASE = 1000                                  # a list-valued datum is observed as 1000 + its length
+
+
+def via_effective(which, entries):
+    """the update call SemI._init_<which> makes for these entries: `parents or TOP_TYPE` (None, a missing key,
+    '', [] and () become the top; a whitespace-only string stays and has no parents), data for EVERY entry
+    of variables (its property list) and predicates (its synopsis list), none for properties"""
+    sub, data = [], []
+    for name, pform, pvals, nprops in entries:
+        if pform == "str" and pvals[0] != "":
+            spec = S(pvals[0])
+        elif pform in ("list", "tuple") and pvals:
+            spec = T(*pvals)
+        else:
+            spec = T("*top*")
+        sub.append([name, spec])
+        if which == "variables":
+            data.append([name, DATA_LIST_BASE + nprops])
+        elif which == "predicates":
+            data.append([name, DATA_LIST_BASE])
+    return upd(sub, data if which != "properties" else None)
+
+
+def via_case(which, entries, steps, tags):
+    case = mk_case("semi", "*top*", via_effective(which, entries) if entries else None, steps,
+                   ["via_semi", "via:" + which] + list(tags))
+    case["via"] = {"which": which,
+                   "entries": [[cps(n), pf, [cps(x) for x in pv], k] for n, pf, pv, k in entries]}
+    return case
+
+
+def construct_via(via):
+    which = via["which"]
+    spec = {}
+    for name, pform, pvals, nprops in via["entries"]:
+        vals = [uncps(x) for x in pvals]
+        d = {}
+        if pform == "none":
+            d["parents"] = None
+        elif pform == "str":
+            d["parents"] = vals[0]
+        elif pform == "list":
+            d["parents"] = list(vals)
+        elif pform == "tuple":
+            d["parents"] = tuple(vals)
+        if which == "variables" and nprops:
+            d["properties"] = [list(x) for x in VIA_PROPS[:nprops]]
+        if which == "predicates" and nprops:
+            d["synopses"] = []
+        spec[uncps(name)] = d
+    kw = {which: spec}
+    if which == "variables":
+        kw["properties"] = {"3": {}, "SG": {"parents": None}}
+    smi = dsemi.SemI.from_dict(kw) if len(via["entries"]) % 2 else dsemi.SemI(**kw)
+    return getattr(smi, which)
+
+
+def enc_data(v):
+    return DATA_LIST_BASE + len(v) if isinstance(v, (list, tuple)) else v
+
+
+def semi_api_cases():
+    """the SEM-I's variable / property / predicate hierarchies, built by SemI(...) / SemI.from_dict through
+    `update(subhierarchy=…, data=…)`: every form of the 'parents' value, mixed spellings, every documented
+    invalid entry at the first / a middle / the last position (the constructor must raise HierarchyError),
+    and accepted constructions followed by rejected and accepted calls on the hierarchy SemI exposes"""
+    base = [["u", "absent", [], 0], ["i", "list", ["u"], 0], ["E", "list", ["I"], 1], ["p", "tuple", ["U"], 0],
+            ["x", "str", ["i \t P"], 2], ["h", "none", [], 0]]
+    follow = [upd([["q", S("X")]], [["Q", 5]]), upd([["r", S("q nope")]], [["x", 1]]), setitem("E", 9),
+              upd(None, [["e", 2], ["nope", 3]]), upd([["r", S("e P")]], [["R", 4], ["u", 6]]), setitem("nope", 1),
+              upd([["s", T("x", "I")]], None)]
+    faults = {
+        "ok_emptylist": [["z", "list", [], 0]], "ok_emptystr": [["z", "str", [""], 1]], "ok_emptytuple": [["z", "tuple", [], 0]],
+        "ok_two_spellings": [["I", "list", ["U"], 1]], "ok_multi": [["z", "list", ["E", "p"], 2]],
+        "unknown_parent": [["z", "list", ["nope"], 0]], "late_unknown": [["z", "str", ["x nope"], 0]],
+        "cycle": [["z", "list", ["w"], 0], ["w", "tuple", ["Z"], 0]], "self_parent": [["z", "str", ["Z"], 0]],
+        "redundant": [["z", "list", ["x", "u"], 0]], "redundant_top": [["z", "str", ["*TOP* e"], 0]],
+        "dup_top": [["*TOP*", "list", ["u"], 0]], "blank_str": [["z", "str", [" "], 0]],
+    }
+    for which in VIA_KINDS:
+        yield via_case(which, [], follow[:3], ["via:empty"])
+        yield via_case(which, base, follow, ["via:base"])
+        for fname, fent in faults.items():
+            for pos in (0, 3, len(base)):
+                yield via_case(which, base[:pos] + fent + base[pos:], follow, ["fault:" + fname])
 
 
 EXH_CAND = ["top", "a", "b", "x", "y", "q"]
@@ -467,30 +661,50 @@ def observe(h, U, r):
             "chi": guarded(lambda: {"ok": sset(h.children(u))}),
             "anc": guarded(lambda: {"ok": sset(h.ancestors(u))}),
             "des": guarded(lambda: {"ok": sset(h.descendants(u))}),
-            "get": guarded(lambda: {"ok": h[u]}),
+            "get": guarded(lambda: {"ok": enc_data(h[u])}),
         })
     sub = [[guarded(lambda: bool(h.subsumes(a, b))) for b in U] for a in U]
     com = [[guarded(lambda: bool(h.compatible(a, b))) for b in U] for a in U]
-    items = guarded(lambda: [[cps(i), d] for i, d in h.items()])
+    items = guarded(lambda: [[cps(i), enc_data(d)] for i, d in h.items()])
     state = {
         "hier": sorted([cps(k), [cps(p) for p in v]] for k, v in h._hier.items()),
         "loer": sorted([cps(k), sset(v)] for k, v in h._loer.items()),
-        "data": sorted([cps(k), v] for k, v in h._data.items()),
+        "data": sorted([cps(k), enc_data(v)] for k, v in h._data.items()),
         "order": [cps(k) for k in h._hier],
     }
-    return {"r": r, "len": guarded(lambda: len(h)), "items": items, "q": q, "sub": sub, "com": com,
-            "_state": state}
+    return {"r": r, "top": guarded(lambda: cps(h.top)), "eq": guarded(lambda: rebuilt_eq(h)),
+            "len": guarded(lambda: len(h)), "items": items, "q": q, "sub": sub, "com": com, "_state": state}
+
+
+def rebuilt_eq(h):
+    """the class docstring's `Hierarchy(top, {id: h.parents(id) for id in h}) == h`, data included: the same
+    class and normaliser, built by the constructor from the parents()/items() answers, compared with `==`
+    both ways (model: `rebuild`, `eqH`)"""
+    r = type(h)(h.top, {i: h.parents(i) for i in h}, {i: d for i, d in h.items() if d is not None}, h._norm)
+    if h[h.top] is not None:
+        r[h.top] = h[h.top]
+    r0 = type(h)(h.top, {i: h.parents(i) for i in h}, None, h._norm)        # the same graph without the data
+    return [bool(r == h), bool(h == r), bool(r0 == h)]
 
 
 def construct(case):
     cls = case["cls"]
     top = uncps(case["top"])
     init = case.get("init")
+    if case.get("via"):
+        return construct_via(case["via"])
     if cls == "semi":
         h = dsemi._new_hierarchy()
         if init is not None:
             h.update(py_sub(init["sub"]), py_data(init["data"]))
         return h
+    if cls in UPPER_CLASSES:
+        K = dh.MultiHierarchy if cls == "multi_upper" else dtfs.TypeHierarchy
+        if init is None:
+            return K(top, normalize_identifier=str.upper)
+        if len(top) % 2:        # positional and keyword forms of the same call
+            return K(top, py_sub(init["sub"]), py_data(init["data"]), str.upper)
+        return K(top, hierarchy=py_sub(init["sub"]), data=py_data(init["data"]), normalize_identifier=str.upper)
     K = dh.MultiHierarchy if cls == "multi" else dtfs.TypeHierarchy
     if init is None:
         return K(top)
@@ -660,33 +874,61 @@ def normalised_case(case):
         return {"k": "update",
                 "sub": None if st["sub"] is None else [[cps(nf(uncps(i))), nspec(p)] for i, p in st["sub"]],
                 "data": None if st["data"] is None else [[cps(nf(uncps(i))), v] for i, v in st["data"]]}
-    return dict(case, top=cps(nf(uncps(case["top"]))), init=nstep(case.get("init")),
-                steps=[nstep(st) for st in case["steps"]])
+    out = dict(case, top=cps(nf(uncps(case["top"]))), init=nstep(case.get("init")),
+               steps=[nstep(st) for st in case["steps"]])
+    if case.get("via"):
+        out["via"] = None        # the SemI-built hierarchy against the same update made directly
+    return out
 
 
 class C17(Check):
     pid = "C17"
-    quick_cases = 900
+    props_modules = ["Verif.C17.Props", "Verif.C17.PropsData", "Verif.C17.Translated"]
+    quick_cases = 650
     thorough_cases = 15000
     rule = ("histories of 0-8 update/__setitem__ calls on MultiHierarchy (identity normaliser), tfs.TypeHierarchy and "
-            "semi's hierarchy (str.lower) over <= 12 names incl. mixed-case spellings, '' and 'a b' (tuple only); batches "
+            "semi's hierarchy (str.lower), MultiHierarchy/TypeHierarchy with a caller-supplied normaliser (str.upper, "
+            "positional and keyword), and the variable/property/predicate hierarchies semi.SemI(...)/SemI.from_dict build "
+            "through update(subhierarchy=, data=) from every form of the 'parents' value (missing, None, '', [], (), list, "
+            "tuple, string, blank string); <= 12 names incl. mixed-case spellings, '' and 'a b' (tuple only); batches "
             "of 1-6 entries, parents as strings (random Unicode-whitespace separators) or tuples; every documented "
             "invalid entry (unknown parent, cycle, self parent, redundant parent old/new, duplicate id, duplicate top, "
             "empty parents, data for unknown id, two spellings of one id) at every batch position with valid entries "
-            "eligible in earlier rounds; exhaustive: all batches of <= 2 entries over 2 new names with parents any "
-            "<=2-subset of 6 names. Non-trivial = at least one call; distinct by JSON text.")
+            "eligible in earlier rounds; DATA: update calls with data only (subhierarchy None or {}) and data with a "
+            "subhierarchy, 1-4 data entries naming nodes with and without stored data, the top, nodes added by the same "
+            "call and one unknown identifier first/middle/last, normal-form and other spellings, two spellings of one "
+            "key; batches rejected for a hierarchy reason whose data is valid; the constructor's data argument with "
+            "hierarchy None / {} / a batch; __setitem__/__getitem__ on unknown and differently spelled identifiers; "
+            "exhaustive: all batches of <= 2 entries over 2 new names with parents any <=2-subset of 6 names. "
+            "After the constructor and after EVERY call the full query set (incl. h[id] of every identifier, items, "
+            "top, == with a rebuilt hierarchy). Non-trivial = at least one call; distinct by JSON text.")
     assumptions = [
         "identifiers of normalising hierarchies are ASCII (model's lower = Char.toLower; Python's str.lower agrees there)",
         "str.split() splits exactly on the model's spaceCodes (pinned against the live code for every code point "
         "< U+3001 by c17_pins; no code point above is generated)",
-        "data values are integers; identifiers are strings (non-string identifiers of MultiHierarchy are not generated)",
+        "data values are integers (the property/synopsis lists SemI stores are observed as 1000 + their length); "
+        "identifiers are strings (non-string identifiers of MultiHierarchy are not generated)",
+        "the caller-supplied normaliser is str.upper on ASCII identifiers (model: Char.toUpper, pinned by c17_pins_upper)",
         "atomicity is true of the pure model by construction; it is checked on the real code only (oracle: full query "
         "set and a snapshot of _hier/_loer/_data after every rejected call equal those before it)",
     ]
     trusted_base = ["hand-written model lean/Verif/C17/Model.lean, tied to delphin.hierarchy by the correspondence run",
                     "normaliser is a parameter of the model and of every theorem; the theorems about descendants/"
                     "subsumes/compatible and the query form of the redundancy clause assume it idempotent (the code "
-                    "re-normalises in nested public calls; str.lower and the identity are idempotent)"]
+                    "re-normalises in nested public calls; str.lower and the identity are idempotent)",
+                    "source translator py2lean + PyRt (TRANSLATOR.md)"]
+
+    def translation_specs(self):
+        from .common import py2lean as P
+        from delphin import hierarchy
+        al = P.Dict(P.STR, P.Lst(P.STR))
+        return [P.Spec(hierarchy._get_eligible, "get_eligible", [("hier", al), ("sub", al)], P.Lst(P.STR))]
+
+    def translations(self):
+        """Source translation (TRANSLATOR.md): hierarchy._get_eligible → lean/Verif/Generated/TransC17.lean, proved equal
+        to the model's eligibility filter in lean/Verif/C17/Translated.lean."""
+        from .common import py2lean as P
+        return P.translate_module(self.translation_specs(), "Verif.Trans.C17")
 
     # ---- pins: constants, defaults and shape facts of the live code that the model mirrors
     def tables(self):
@@ -735,7 +977,15 @@ class C17(Check):
         def ascii_image(h):
             return "[" + ", ".join("[" + ", ".join(str(ord(x)) for x in h._norm(chr(c))) + "]" for c in range(128)) + "]"
         fresh = M("t")
-        return [
+        um, ut = M("ToP", normalize_identifier=str.upper), TH("ToP", normalize_identifier=str.upper)
+        upper = [
+            "def c17MultiUpperNormAscii : List (List Nat) := %s" % ascii_image(um),
+            "def c17TypeUpperNormAscii : List (List Nat) := %s" % ascii_image(ut),
+            "def c17UpperPlumbing : List Bool := [%s]" % ", ".join(
+                "true" if b else "false" for b in (um._norm is str.upper, ut._norm is str.upper)),
+            "def c17UpperTops : List String := [%s]" % ", ".join(lit(x) for x in (um.top, ut.top)),
+        ]
+        return upper + [
             "def c17Defaults : List String := [%s]" % ", ".join(lit(x) for x in defaults),
             "def c17Consts : List String := [%s]" % ", ".join(lit(x) for x in cons),
             "def c17Names : List String := [%s]" % ", ".join(lit(x) for x in nms),
@@ -751,6 +1001,8 @@ class C17(Check):
 
     # ---- cases
     def cases(self, rng, tier, n):
+        yield from data_cases()
+        yield from semi_api_cases()
         yield from placement_cases()
         yield from exhaustive_cases(rng, tier)
         for _ in range(n):
@@ -801,6 +1053,7 @@ class C17(Check):
             if stray:
                 fail("data is stored for an identifier that is no node", stray)
             check_observation(case, o, fail)
+        self.data_oracle(case, res, mk)
         if case["cls"] != "multi":
             nc = normalised_case(case)
             if nc != case:
@@ -810,6 +1063,43 @@ class C17(Check):
                     mk(k)("the same history written in normal-form spellings gives different answers",
                           [key for key in (res[k] if k < len(res) else {}) if k >= len(res2) or res[k][key] != res2[k].get(key)])
         return fails
+
+    def data_oracle(self, case, res, mk):
+        """the stored data, tracked naively from the calls alone: an accepted update stores exactly the given
+        data (the last entry among those the normaliser identifies), an accepted __setitem__ exactly its value,
+        a rejected call nothing; h[u] is that value (None for a node without data) for every spelling u of a
+        node, KeyError otherwise; items() pairs every node with the same value; data is kept for nodes only."""
+        if not res or "q" not in res[0]:
+            return
+        nf = nf_of(case["cls"])
+        U = [uncps(u) for u in case["U"]]
+        D = {}
+        init = case.get("init")
+        if init is not None and (init.get("sub") is not None or case["cls"] == "semi"):
+            # (a constructor called with hierarchy=None does not call update: its data is not looked at)
+            for i, v in init.get("data") or []:
+                D[nf(uncps(i))] = v
+        for k, o in enumerate(res):
+            fail = mk(k)
+            if k > 0 and o["r"] == "ok":
+                st = case["steps"][k - 1]
+                if st["k"] == "set":
+                    D[nf(uncps(st["id"]))] = st["val"]
+                else:
+                    for i, v in st.get("data") or []:
+                        D[nf(uncps(i))] = v
+            for u, qq in zip(U, o["q"]):
+                want = {"ok": D.get(nf(u))} if qq["in"] is True else {"err": "KeyError"}
+                if qq["get"] != want:
+                    fail("h[id] is not the data given by the accepted calls", (u, qq["get"], want))
+            if isinstance(o["items"], list):
+                for i, d in o["items"]:
+                    if d != D.get(uncps(i)):
+                        fail("items() does not pair a node with the data given by the accepted calls",
+                             (uncps(i), d, D.get(uncps(i))))
+            stored = {uncps(i): v for i, v in o["_state"]["data"]}
+            if stored != D:
+                fail("the stored data is not exactly the data given by the accepted calls", (stored, D))
 
     def classify(self, case, failure):
         """F01: a rejected batch one of whose entries was insertable leaked a child link.
@@ -839,6 +1129,10 @@ class C17(Check):
         def inc(k, d=1):
             c[k] = c.get(k, 0) + d
         inc("class:" + case["cls"])
+        if case.get("via"):
+            inc("via_semi:%s:%s" % (case["via"]["which"], "rejected" if res and "q" not in res[0] else "built"))
+            for _, pform, _, _ in case["via"]["entries"]:
+                inc("via_parents:" + pform)
         inc("steps:%d" % len(case["steps"]))
         inc("universe:%d" % len(case["U"]))
         for t in case.get("tags", []):
@@ -856,6 +1150,22 @@ class C17(Check):
             r = o["r"]
             kind = st["k"] if st else "?"
             inc("call:%s:%s" % (kind, "accepted" if r == "ok" else r.get("err")))
+            if st and st["k"] == "update" and st.get("data"):
+                nfd = nf_of(case["cls"])
+                form = "data_only" if not st.get("sub") else "data_with_sub"
+                inc("call:update:%s:%s" % (form, "accepted" if r == "ok" else r.get("err")))
+                if r != "ok" and k > 0:
+                    known = {nfd(uncps(u)) for u, qq in zip(case["U"], res[k - 1]["q"]) if qq["in"] is True}
+                    new = {nfd(uncps(i)) for i, _ in st.get("sub") or []}
+                    flags = [nfd(uncps(i)) in known or nfd(uncps(i)) in new for i, _ in st["data"]]
+                    if False in flags:
+                        p = flags.index(False)
+                        inc("data_unknown:%s" % ("only" if len(flags) == 1 else "first" if p == 0 else
+                                                 "last" if p == len(flags) - 1 else "middle"))
+                        if any(nfd(uncps(i)) != uncps(i) for i, _ in st["data"]):
+                            inc("data_unknown:with_respelled_keys")
+                    else:
+                        inc("data_valid_but_batch_rejected")
             if st and st["k"] == "update" and st.get("sub"):
                 inc("batch:%d" % len(st["sub"]))
                 for _, p in st["sub"]:
